@@ -54,6 +54,14 @@
 (* on it waits for the GC; a lent transport that was never used is kept    *)
 (* until Close; routes are looked up only while unicast listeners exist.   *)
 (*                                                                         *)
+(* The module is the STATEMENT.  When it was written the code fell short   *)
+(* of it in three places, reported as findings (known_findings.d/          *)
+(* C04qr.json) and NOT modelled: DialQUIC never gives back the reference   *)
+(* of a successful dial (Q4), ListenQUICAndAssociate keeps the reference   *)
+(* when newQuicListener fails (Q4), singleOwnerTransport.DecreaseCount     *)
+(* closes the QUIC transport but not the socket (Q5).  With the candidate  *)
+(* repairs applied the real code follows this module step by step.         *)
+(*                                                                         *)
 (* One action per public call / critical section; TransportForDial is two  *)
 (* steps (routes read, router asked outside the lock, then the choice), so *)
 (* that listens, closes and GC ticks interleave with it.  Faults of the    *)
@@ -110,7 +118,7 @@ Conflict(a) == a.port # 0 /\ \E s \in Ids : /\ ~st.socks[s].closed
 FaultOk(f) == f = "ok" \/ (f \in Faults /\ st.nf < MaxFaults)
 Nf(f) == IF f = "ok" THEN st.nf ELSE st.nf + 1
 
-\* DecreaseCount on socket record k (t is unused: the age of a socket that just became unused is 0)
+\* DecreaseCount on socket record k (the second argument is not used: the age of a socket that just became unused is 0)
 Dec(k, t) == IF Reuse
              THEN [k EXCEPT !.ref = k.ref - 1, !.unused = IF k.ref - 1 = 0 THEN 0 ELSE k.unused]
              ELSE [k EXCEPT !.ref = 0, !.closed = TRUE]          \* single owner: the owner is done
